@@ -6,7 +6,7 @@ import vlib
 def run(tier, seed, replay=None):
     ck = vlib.Check("C05", tier, seed, "model_checking")
     binary = vlib.build_harness()
-    c = dict(Ids='{"P","X"}', Signers='{"P","S"}', MaxEps=1 if tier == "quick" else 2, FIXED=True, EXPORT=True, SLIM=False)
+    c = dict(Ids='{"P","S","X"}', Signers='{"P","S"}', MaxEps=1 if tier == "quick" else 2, FIXED=True, EXPORT=True, SLIM=False)
     r = vlib.tlc("AdSignature", ("c05.cfg", vlib.cfg_text(c, ["Agree", "ReturnsSigner", "ExportCase"])), timeout=3000, tag="c05")
     ck.add_tlc("AdSignature", r, "every ad shape x signer x key assignment x single mutation: Verify(Mutate(Sign)) = declarative outcome")
     # lists of two (quick) / three (thorough) extended providers on one fixed advertisement body: the main provider next to others
